@@ -10,6 +10,7 @@ import (
 	"strconv"
 	"strings"
 	"time"
+	_ "time/tzdata" // the zone database, embedded: DST zones are loaded without touching the host
 
 	"verifharness/vhlib"
 
@@ -39,11 +40,14 @@ type arg struct {
 }
 
 type input struct {
-	Loc     int  `json:"loc"`
-	Range   bool `json:"range,omitempty"`
-	Collect bool `json:"collect,omitempty"` // ParseTimeRangeCollectErrors instead of ParseTimeRange
-	A       arg  `json:"a"`
-	B       arg  `json:"b,omitempty"`
+	Loc int `json:"loc"`
+	// TZ: time.Local is this DST-observing zone instead of the fixed offset Loc. Only used with
+	// relative (and empty) arguments: "now minus a duration" must not depend on the zone.
+	TZ      string `json:"tz,omitempty"`
+	Range   bool   `json:"range,omitempty"`
+	Collect bool   `json:"collect,omitempty"` // ParseTimeRangeCollectErrors instead of ParseTimeRange
+	A       arg    `json:"a"`
+	B       arg    `json:"b,omitempty"`
 }
 
 // the supported layouts (the specification's list: time.go at the time the check was written, in
@@ -321,6 +325,9 @@ func genArg(r *vhlib.Rand, loc int, i int, search bool) arg {
 	}
 }
 
+var dstZones = []string{"Europe/Zurich", "America/New_York", "Australia/Lord_Howe"}
+var dstDays = []int64{1, 30, 90, 150, 177, 178, 200, 250, 300, 365, 400}
+
 var nowDeltas = []int64{-3600, -1, 0, 1, 3600, 315360000}
 
 func layoutIndex(l string) int {
@@ -382,6 +389,13 @@ func gen(r *vhlib.Rand, i int, o vhlib.Opts) any {
 			zone = off
 		}
 		return input{Loc: loc, A: arg{K: "abs", Layout: l, Off: off, T: civ - int64(zone)}}
+	}
+	if g := k - 2*len(layouts) - 120; g >= 0 && g < len(dstZones)*len(dstDays)*2 {
+		// relative times under zones with DST: X days back is 86400*X seconds, whatever the calendar says
+		z := dstZones[g%len(dstZones)]
+		x := dstDays[(g/len(dstZones))%len(dstDays)]
+		syn := g / (len(dstZones) * len(dstDays))
+		return input{TZ: z, A: arg{K: "rel", Syn: syn, Has: 7, D: x, H: int64(g % 24), M: int64(g % 60)}}
 	}
 	if g := k - 2*len(layouts); g < 120 {
 		// open-ended / explicit end x start in the past, around now, in the future x text kinds x both functions
@@ -456,6 +470,16 @@ func gen(r *vhlib.Rand, i int, o vhlib.Opts) any {
 		return in
 	}
 	in.A = genArg(r, loc, i, o.Search)
+	if in.A.K == "rel" && r.Chance(40) {
+		in.TZ = vhlib.Pick(r, dstZones)
+		if r.Chance(60) {
+			in.A.Has |= 1
+			in.A.D = vhlib.Pick(r, dstDays) + int64(r.Intn(3))
+		}
+		if r.Chance(30) {
+			in.Range, in.Collect, in.B = true, r.Bool(), arg{K: "empty"}
+		}
+	}
 	return in
 }
 
@@ -606,6 +630,13 @@ func run(raw json.RawMessage, o vhlib.Opts) (*vhlib.Case, error) {
 		return nil, err
 	}
 	time.Local = time.FixedZone("L", in.Loc)
+	if in.TZ != "" {
+		l, err := time.LoadLocation(in.TZ)
+		if err != nil {
+			return nil, fmt.Errorf("zone %q not available: %w", in.TZ, err)
+		}
+		time.Local = l
+	}
 	c := &vhlib.Case{}
 	n0 := time.Now().Unix()
 	resolve(&in.A, n0)
@@ -625,6 +656,9 @@ func run(raw json.RawMessage, o vhlib.Opts) (*vhlib.Case, error) {
 		}
 		obs, cls := resZ(panicked, err, vhlib.CoqZ(v))
 		c.Tags = append(append([]string{"arg"}, ta...), cls)
+		if in.TZ != "" {
+			c.Tags = append(c.Tags, "dst-zone:"+in.TZ)
+		}
 		c.Nontrivial = in.A.K != "raw" || cls == "ok"
 		ob := map[string]any{"text": sa, "class": cls, "lo": lo, "hi": hi}
 		if cls == "ok" {
